@@ -824,8 +824,8 @@ func (p *CaseForm) typecheckForm(gammaNameTypesCtx NamesTypesCtx, providerShadow
 			// Copy gamma so that each branch has its own version
 			newGammaNameTypesCtx := copyContext(gammaNameTypesCtx)
 
-			// curBranchForm.payload_c cannot exist in gammaNameTypesCtx
-			if nameTypeExists(newGammaNameTypesCtx, curBranchForm.payload_c.Ident) {
+			// curBranchForm.payload_c cannot exist in gammaNameTypesCtx (nor stand for the provider)
+			if isProvider(curBranchForm.payload_c, providerShadowName) || nameTypeExists(newGammaNameTypesCtx, curBranchForm.payload_c.Ident) {
 				// Names are not fresh
 				return TypeErrorf("variable name '%s' is already defined. Use unique names in %s", curBranchForm.payload_c.String(), curBranchForm.StringShort())
 			}
@@ -879,6 +879,11 @@ func (p *NewForm) typecheckForm(gammaNameTypesCtx NamesTypesCtx, providerShadowN
 	//		// Names are not fresh
 	//		return TypeErrorf("the cut rule requires a new variable; %s is already assigned", p.new_name_c.String())
 	//	}
+	if isProvider(p.new_name_c, providerShadowName) {
+		// The new channel is a client of this process: it cannot be called like the provider
+		return TypeErrorf("the cut rule requires a new variable; %s refers to the provider", p.new_name_c.String())
+	}
+
 	_, new_name_reused := gammaNameTypesCtx[p.new_name_c.Ident]
 
 	if !new_name_reused && nameInNames(p.new_name_c, p.body.FreeNames()...) {
@@ -1313,8 +1318,9 @@ func (p *SplitForm) typecheckForm(gammaNameTypesCtx NamesTypesCtx, providerShado
 		return TypeErrorE(err)
 	}
 
-	// Ensure new names
-	if nameTypeExists(gammaNameTypesCtx, p.channel_one.Ident) ||
+	// Ensure new names (which cannot stand for the provider either)
+	if isProvider(p.channel_one, providerShadowName) || isProvider(p.channel_two, providerShadowName) ||
+		nameTypeExists(gammaNameTypesCtx, p.channel_one.Ident) ||
 		nameTypeExists(gammaNameTypesCtx, p.channel_two.Ident) {
 		// Names are not fresh
 		return TypeErrorf("variable names <%s, %s> already defined. Use unique names", p.channel_one.String(), p.channel_two.String())
